@@ -235,6 +235,12 @@ func genVCs(w *World, db *ContractDB, ct *Contract) (res *FnResult) {
 			}
 		}
 		if want {
+			// a spec function the axiom mentions but the function's own clauses do not must still be declared
+			for name, sf := range db.specFns {
+				if strings.Contains(ra.Text, "("+name+" ") || strings.Contains(ra.Text, " "+name+")") {
+					e.declFun(name, sf.Args, sf.Ret)
+				}
+			}
 			e.addDecl(fmt.Sprintf("rawaxiom@%d", i), "(assert "+ra.Text+")")
 		}
 	}
